@@ -71,8 +71,16 @@ EX_SRCS := $(shell find $(EX) -name '*.c' | sort)
 $(NETB)/examples_O0.o: $(EX_SRCS) $(LIB_SRCS) $(REPO_HDRS) Makefile tools/build_o0.sh $(B)/repo_config.mk | dirs
 	tools/build_o0.sh $(NETB)/exO0 $@ "$(CC)" "$(NET_REPO_CFLAGS_O0) $(REPO_EX_DEFS)" $(EX) "$(REPO_LIB_DEFS)" $(LIB_SRCS)
 
-$(B)/net_sim: $(NETB)/marker_begin.o $(NET_LIB_OBJS) $(NET_EX_OBJS) $(NETB)/examples_O0.o $(NETB)/marker_end.o $(NET_SIM_OBJS)
-	$(CXX) -no-pie -fsanitize=address,bounds,integer-divide-by-zero $(NET_WRAPFLAGS) -o $@ $(NETB)/marker_begin.o $(NET_LIB_OBJS) $(NET_EX_OBJS) $(NETB)/examples_O0.o $(NETB)/marker_end.o $(NET_SIM_OBJS) -lm
+# third copy: programs and library as the repository's own default toolchain compiles them (gcc, -O2). What the C standard leaves to the
+# compiler (order of evaluation of arguments and operands, layout of locals, what an optimiser does with undefined behaviour) differs
+# between gcc and clang; gcc's address/bounds instrumentation reports to the same sanitizer runtime, its basic-block callback is trace-pc
+NET_REPO_CFLAGS_G := -std=gnu99 -g -fno-omit-frame-pointer -U_FORTIFY_SOURCE -D_FORTIFY_SOURCE=0 -I$(REPO)/include -w -O2 -DNDEBUG \
+	-fsanitize=address,bounds,integer-divide-by-zero -fno-sanitize-recover=all -fsanitize-coverage=trace-pc -I$(EX)
+$(NETB)/examples_G.o: $(EX_SRCS) $(LIB_SRCS) $(REPO_HDRS) Makefile tools/build_o0.sh $(B)/repo_config.mk | dirs
+	COPY_PREFIX=G_ tools/build_o0.sh $(NETB)/exG $@ "gcc" "$(NET_REPO_CFLAGS_G) $(REPO_EX_DEFS)" $(EX) "$(REPO_LIB_DEFS)" $(LIB_SRCS)
+
+$(B)/net_sim: $(NETB)/marker_begin.o $(NET_LIB_OBJS) $(NET_EX_OBJS) $(NETB)/examples_O0.o $(NETB)/examples_G.o $(NETB)/marker_end.o $(NET_SIM_OBJS)
+	$(CXX) -no-pie -fsanitize=address,bounds,integer-divide-by-zero $(NET_WRAPFLAGS) -o $@ $(NETB)/marker_begin.o $(NET_LIB_OBJS) $(NET_EX_OBJS) $(NETB)/examples_O0.o $(NETB)/examples_G.o $(NETB)/marker_end.o $(NET_SIM_OBJS) -lm
 
 net: $(B)/net_sim
 
